@@ -100,6 +100,19 @@ class NumEval(ArithEval):
                     x = float(x)
                     return float("nan") if x == 0 or x != x else math.copysign(float("inf"), x) * math.copysign(1.0, float(y))
                 return float(x) / float(y)
+            if m == "length" and len(a) == 2 and "length" in t[1]:
+                # LengthMeasurable::length(&geometry, &Euclidean) (R16.2 decides that it is the sum of the segment distances)
+                g = self.ev(a[0])
+                if isinstance(g, dict) and "start" in g:
+                    return math.hypot(g["end"]["x"] - g["start"]["x"], g["end"]["y"] - g["start"]["y"])
+                if isinstance(g, dict) and "0" in g and isinstance(g["0"], list):
+                    cs = g["0"]
+                    return sum(math.hypot(cs[i + 1]["x"] - cs[i]["x"], cs[i + 1]["y"] - cs[i]["y"]) for i in range(len(cs) - 1))
+            if m == "cmp" and len(a) == 2:
+                x, y = self.ev(a[0]), self.ev(a[1])
+                if isinstance(x, Enum):
+                    x, y = self.discr_of(x), self.discr_of(y)
+                return Enum("core::cmp::Ordering", "Less" if x < y else "Greater" if x > y else "Equal")
             if t[1] == "vec!" and len(a) == 1:
                 return self.ev(a[0])
             if m in ("deref", "as_slice", "as_ref") and len(a) == 1:
